@@ -52,7 +52,9 @@ partial def valJson : Val → Json
 
 def resJson {α} (f : α → Json) : Res α → Json
   | .ok a => Json.mkObj [("ok", f a)]
-  | .fault c => Json.mkObj [("fault", Json.str c)]
+  | .fault c => Json.mkObj [("fault", Json.str c.code),
+      ("string", match c.str with | some t => Json.str t | none => Json.null),
+      ("actor", Json.str c.actor), ("detail", valJson c.detail)]
   | .exc e => Json.mkObj [("exc", Json.str e)]
 
 def strList (j : Json) : List String :=
@@ -81,13 +83,17 @@ def sigOf (j : Json) : Sig :=
 
 def nth (xs : List Val) (i : Nat) : Option Val := xs[i]?
 
+def optStr' (j : Json) (k : String) : Option String :=
+  match j.getObjVal? k with | .ok (.str s) => some s | _ => none
+
 /-- the scripted user function (the same script is interpreted by harness/c18.py) -/
 def implOf (j : Json) : List Val → Result :=
   match getStr j "k" with
   | "const" => fun _ => .value (valOf ((j.getObjVal? "v").toOption.getD .null))
   | "ignored" => fun _ => .value (.ignored (valOf ((j.getObjVal? "v").toOption.getD .null)))
   | "gen" => fun _ => .value (.gen ((getArr j "v").toList.map valOf))
-  | "fault" => fun _ => .fault (getStr j "code")
+  | "fault" => fun _ => .fault (Flt.mk (getStr j "code") (optStr' j "string") (getStr j "actor")
+      (valOf ((j.getObjVal? "detail").toOption.getD .null)))
   | "error" => fun _ => .error
   | "pick" =>
     let idx := (getArr j "idx").toList.map fun x => (x.getNat?.toOption.getD 0)
